@@ -1,4 +1,4 @@
-"""G9: accessor table. Many rules speak about `Token::get_dst_col(token)` etc. by name; this
+"""G9: accessor table. Many rules speak about `token.raw.dst_col` etc. by name; this
 rule pins what each trivial accessor and iterator actually returns, so that a rule relying on
 an accessor's meaning is void if the accessor is changed."""
 import q
@@ -23,8 +23,8 @@ TABLE = {
     T + "get_source": [["Option::None{}", "SourceMap::get_source(arg1.sm,arg1.raw.src_id)"]],
     T + "get_name": [["Option::None{}", "SourceMap::get_name(arg1.sm,arg1.raw.name_id)"]],
     T + "has_name": [["Option::is_some(Token::get_name(arg1))"]],
-    T + "get_dst": [["tuple(Token::get_dst_line(arg1),Token::get_dst_col(arg1))"]],
-    T + "get_src": [["tuple(Token::get_src_line(arg1),Token::get_src_col(arg1))"]],
+    T + "get_dst": [["tuple(arg1.raw.dst_line,arg1.raw.dst_col)"]],
+    T + "get_src": [["tuple(arg1.raw.src_line,Token::get_src_col(arg1))"]],
     T + "get_raw_token": [["arg1.raw"]],
     T + "sourcemap": [["arg1.sm"]],
     SM + "get_file": [["Option::as_ref(arg1.file)"]],
@@ -35,7 +35,7 @@ TABLE = {
     SM + "get_name_count": [["cast<u32>(Vec::len(arg1.names))"]],
     SM + "get_name": [["slice::get(arg1.names,cast<usize>(arg2))"]],
     SM + "get_source": [["slice::get(Option::unwrap_or(Option::as_ref(arg1.sources_prefixed),arg1.sources),cast<usize>(arg2))"]],
-    SM + "get_source_contents": [["Option::map(Option::and_then(slice::get(arg1.sources_content,cast<usize>(arg2)),fn:Option::as_ref),fn:SourceView::source)"]],
+    SM + "get_source_contents": [["Option::map(Option::and_then(slice::get(arg1.sources_content,cast<usize>(arg2)),fn:Option::as_ref),\u03bb(p1.source))"]],
     SM + "get_source_view": [["Option::and_then(slice::get(arg1.sources_content,cast<usize>(arg2)),fn:Option::as_ref)"]],
     SM + "get_token": [["Option::map(slice::get(arg1.tokens,arg2),\u03bb(Token{raw:p1,sm:^arg1,idx:^arg2,offset:0}))"]],
     SM + "tokens": [["TokenIter{i:arg1,next_idx:0}"]],
@@ -96,8 +96,8 @@ def iterator_overrides(ctx, rule):
         if b.promoted is None and b.kind == "AssocFn" and not b.derived and (b.raw.get("impl_trait") or "") in (
                 "core::iter::traits::iterator::Iterator", "core::iter::traits::double_ended::DoubleEndedIterator", "core::iter::traits::exact_size::ExactSizeIterator"):
             n_it += 1
-            ctx.check(b.raw.get("name") == "next" and b.raw["impl_trait"].endswith("::Iterator"), rule, b.path, "iterator:only-next",
-                      "the iterator types of the crate implement `next` only (all adapters and positional methods derive from it)")
+            ctx.check(b.raw.get("name") in ("next", "size_hint") and b.raw["impl_trait"].endswith("::Iterator"), rule, b.path, "iterator:only-next",
+                      "the iterator types of the crate implement `next` only (all adapters and positional methods derive from it; a `size_hint` is a capacity hint and yields nothing)")
     ctx.floor(rule, "iterators", "Iterator impls of the crate", n_it, 7)
 
 
@@ -141,7 +141,7 @@ def accessors(ctx, rule, only=None, min_n=None):
         if b.promoted is None and b.kind == "AssocFn" and not b.derived and (b.raw.get("impl_trait") or "") in (
                 "core::iter::traits::iterator::Iterator", "core::iter::traits::double_ended::DoubleEndedIterator", "core::iter::traits::exact_size::ExactSizeIterator"):
             n_it += 1
-            ctx.check(b.raw.get("name") == "next" and b.raw["impl_trait"].endswith("::Iterator"), rule, b.path, "iterator:only-next",
-                      "the iterator types of the crate implement `next` only (all adapters and positional methods derive from it)")
+            ctx.check(b.raw.get("name") in ("next", "size_hint") and b.raw["impl_trait"].endswith("::Iterator"), rule, b.path, "iterator:only-next",
+                      "the iterator types of the crate implement `next` only (all adapters and positional methods derive from it; a `size_hint` is a capacity hint and yields nothing)")
     ctx.floor(rule, "iterators", "Iterator impls of the crate", n_it, 7)
     ctx.floor(rule, "accessors", "accessors checked", n, min_n if min_n is not None else (10 if only else 50))
